@@ -65,7 +65,8 @@ public:
              , int
              )
     {
-        // Fire exception in case of error.
+        // Fire exception in case of error (this object may be a copy of the one libjpeg was set up with).
+        this->get()->client_data = static_cast< backend_t* >( this );
         if( setjmp( this->_mark )) { this->raise_error(); }
 
         // read data
@@ -75,7 +76,8 @@ public:
     /// Skip over a scanline.
     void skip( byte_t* dst, int )
     {
-        // Fire exception in case of error.
+        // Fire exception in case of error (this object may be a copy of the one libjpeg was set up with).
+        this->get()->client_data = static_cast< backend_t* >( this );
         if( setjmp( this->_mark )) { this->raise_error(); }
 
         // read data
@@ -89,6 +91,10 @@ private:
 
     void initialize()
     {
+        // The bookmark set by the base class constructor is stale by now: fire an exception from here in case of error.
+        this->get()->client_data = static_cast< backend_t* >( this );
+        if( setjmp( this->_mark )) { this->raise_error(); }
+
         this->get()->dct_method = this->_settings._dct_method;
 
         io_error_if( jpeg_start_decompress( this->get() ) == false
